@@ -238,7 +238,7 @@ class ExpressionFunctionCallIsolator(IdentityMapper):
 
         sub_extra_deps = []
         rec_result = super_method(
-                expr, base_deps, sub_extra_deps)
+                expr, base_condition, base_deps, sub_extra_deps)
 
         from pymbolic.primitives import Call, CallWithKwargs
         assert isinstance(rec_result, (Call, CallWithKwargs))
